@@ -29,6 +29,41 @@ def run(ctx):
         one(ctx, rng, xr, ops, names)
     for i, rng in ctx.cases("fits", ctx.n(64, 1500)):
         fits(ctx, rng, xr)
+    for i, rng in ctx.cases("track", ctx.n(48, 1200)):
+        track_vs_ptm1(ctx, rng, xr)
+
+
+def track_vs_ptm1(ctx, rng, xr):
+    """ptm1_track partitions each record exactly as ptm1 does with that record's own wind and depth - also where the
+    wind record has gaps (missing values) - and tracking a single site equals that site of the batched call."""
+    rec = ctx.rec
+    f = np.linspace(0.04, 0.4, 10)
+    th = np.arange(0, 360, 45.0)
+    nt, ns = int(rng.integers(3, 7)), int(rng.integers(1, 4))
+    A, _ = gen.stack_spectra(rng, f, th, [nt, ns], cls="multimodal")
+    x = gen.make_da(A, f, th, ["time", "site"], [nt, ns])
+    co = {"time": x.time, "site": x.site}
+    wv = rng.uniform(1, 20, (nt, ns))
+    gaps = bool(rng.random() < 0.5)
+    if gaps:
+        wv[int(rng.integers(1, nt - 1)), int(rng.integers(ns))] = np.nan          # a gap with valid wind either side
+    w = xr.DataArray(wv, dims=["time", "site"], coords=co)
+    wd = xr.DataArray(rng.uniform(0, 360, (nt, ns)), dims=["time", "site"], coords=co)
+    dp = xr.DataArray(np.full((nt, ns), 40.0), dims=["time", "site"], coords=co)
+    key = "gaps=%s|sites=%d" % (gaps, ns)
+    try:
+        T = x.spec.partition.ptm1_track(w, wd, dp, swells=2).compute()
+        P1 = x.spec.partition.ptm1(w, wd, dp, swells=2).compute()
+    except Exception as e:
+        rec.skip("track_vs_ptm1", "raised %s" % type(e).__name__)
+        return
+    a_ = np.asarray(T["efth"].transpose("part", "time", "site", "freq", "dir").values, dtype="float64")
+    b_ = np.asarray(P1.transpose("part", "time", "site", "freq", "dir").values, dtype="float64")
+    if a_.shape == b_.shape and np.array_equal(a_, b_, equal_nan=True):
+        rec.ok("track_vs_ptm1", key)
+    else:
+        w_ = np.argwhere(~((a_ == b_) | (np.isnan(a_) & np.isnan(b_))))[0] if a_.shape == b_.shape else None
+        rec.bad("track_vs_ptm1", key, {"first_difference_part_time_site": None if w_ is None else [int(v) for v in w_[:3]], "wind": wv}, "crosstalk-batched-differs-from-single")
 
 
 def _fit_spectrum(rng, f, th, cls):
@@ -245,6 +280,31 @@ def one(ctx, rng, xr, ops, names):
             pass
         except Exception as e:
             rec.bad("dataset_accessor", key, {"op": name, "raised": repr(e)[:300]}, "dataset-accessor-raises")
+    # (3b) smoothing with missing data: an all-missing first record / holes in another record must not change how the
+    #      other spectra are smoothed
+    if lead and len(allpos) > 1 and x.sizes["freq"] >= 3 and x.sizes["dir"] >= 3 and rng.random() < 0.3:
+        xn = x.copy(deep=True)
+        xv = xn.transpose(*lead, "freq", "dir").values.copy()
+        flat = xv.reshape((-1,) + xv.shape[-2:])
+        flat[0] = np.nan
+        if flat.shape[0] > 2:
+            flat[1, int(rng.integers(flat.shape[1])), int(rng.integers(flat.shape[2]))] = np.nan
+        xn = xn.transpose(*lead, "freq", "dir").copy(data=flat.reshape(xv.shape)).transpose(*x.dims)
+        try:
+            Rn = xn.spec.smooth(3, 3)
+            Rn = Rn.compute() if hasattr(Rn, "compute") else Rn
+            okn = True
+            for idx in allpos[:8]:
+                r1 = xn.isel(idx).spec.smooth(3, 3)
+                a_, b_ = np.asarray(Rn.isel(idx).transpose("freq", "dir").values, dtype="float64"), np.asarray(r1.transpose("freq", "dir").values, dtype="float64")
+                if not np.allclose(a_, b_, rtol=1e-12 if not f32 else 1e-6, atol=0, equal_nan=True):
+                    rec.bad("smooth_with_missing", "lead=%s" % "+".join(sorted(lead)), {"position": idx, "dims": x.dims}, "crosstalk-batched-differs-from-single")
+                    okn = False
+                    break
+            if okn:
+                rec.ok("smooth_with_missing", "lead=%s" % "+".join(sorted(lead)))
+        except Exception as e:
+            rec.skip("smooth_with_missing", "raised %s" % type(e).__name__)
     # (4) the same Dataset object after in-place edits: the two accessors must still agree
     edit = str(rng.choice(["coords_dir", "coords_freq", "setitem_dir", "efth_replaced"]))
     if edit == "coords_dir":
